@@ -118,4 +118,39 @@ theorem keepLazy_sorted (cells : List (Nat × Nat × α)) (hs : RowSorted cells)
         · exact hbK x hx'
       · exact ⟨hsK, hbK⟩
 
+/-- the list handed to `from_sparse` under `Row(n)`: every kept cell has row ≥ n, and when there is one, some
+    element of the list sits exactly in row n (the first kept cell, or the anchor) -/
+theorem keepLazy_row_facts (cells : List (Nat × Nat × α)) (n : Nat) (hex : Kn cells n ≠ []) :
+    keepLazy cells (.row n) ≠ [] ∧ (∀ x ∈ keepLazy cells (.row n), n ≤ x.1) ∧
+    (∃ x ∈ keepLazy cells (.row n), x.1 = n) ∧
+    (∀ x ∈ Kn cells n, x ∈ keepLazy cells (.row n)) ∧
+    (∀ x ∈ keepLazy cells (.row n), x ∈ Kn cells n ∨ (x.1 = n ∧ x.2.2 = default)) ∧
+    (∀ p q, (lastAt (keepLazy cells (.row n)) p q).getD default = (lastAt (Kn cells n) p q).getD default) := by
+  have hge : ∀ c ∈ Kn cells n, n ≤ c.1 := by
+    intro c hc; have := (List.mem_filter.mp hc).2; simp only [decide_eq_true_eq] at this; exact this.2
+  obtain ⟨c, rest, hk⟩ := List.exists_cons_of_ne_nil hex
+  have hk' : cells.filter (fun c => decide (c.2.2 ≠ default ∧ c.1 ≥ n)) = c :: rest := hk
+  simp only [keepLazy, hk']
+  by_cases hc : c.1 ≠ n
+  · rw [if_pos hc]
+    refine ⟨by simp, ?_, ⟨_, List.mem_cons_self .., rfl⟩, ?_, ?_, ?_⟩
+    · intro x hx
+      rcases List.mem_cons.mp hx with rfl | hx'
+      · simp
+      · exact hge x (by rw [hk]; exact hx')
+    · intro x hx; exact List.mem_cons_of_mem _ hx
+    · intro x hx
+      rcases List.mem_cons.mp hx with rfl | hx'
+      · exact Or.inr ⟨rfl, rfl⟩
+      · exact Or.inl hx'
+    · intro p q; exact lastAt_cons_default _ _ _ _ _
+  · rw [if_neg hc]
+    have hcn : c.1 = n := Classical.not_not.mp hc
+    refine ⟨by simp, ?_, ⟨c, List.mem_cons_self .., hcn⟩, ?_, ?_, ?_⟩
+    · intro x hx; exact hge x (by rw [hk]; exact hx)
+    · intro x hx; exact hx
+    · intro x hx; exact Or.inl hx
+    · intro p q; rfl
+
+
 end HeaderRow
